@@ -203,6 +203,14 @@ func genC01(ctx *Ctx) {
 		ctx.Count(fmt.Sprintf("tree-ops:%d", min(countOps(t), 12)))
 		ctx.Input(exprInput(text, symEnv(ctx.Rnd), t), countOps(t) >= 2)
 	}
+	binops := []string{"AND", "OR", "XOR", "=", "<>", "!=", ">", "<", ">=", "<=", "+", "-", "LIKE", "NOT LIKE", "NOT IN", "*", "/", "%", "^", "IN", "<<", ">>"}
+	penv := symEnv(ctx.Rnd)
+	for _, o1 := range binops {
+		for _, o2 := range binops {
+			ctx.Count("operator-pair")
+			ctx.Input(exprInput("a "+o1+" b "+o2+" c", penv, nil), true)
+		}
+	}
 	depth := 3
 	if ctx.Thorough {
 		depth = 4
